@@ -1,6 +1,6 @@
 (** Pins for C01: the statements written out, so that no theorem is weakened quietly. *)
 From TucModel Require Import Base.Bytes Base.ListX Model.Bounds Model.BoundsParse Model.Scan Model.Opt
-     Model.CutBytes Model.CutStr Spec.Fields Proofs.C06 Proofs.ScanSplit Proofs.Plain Proofs.C01More Proofs.PlainMulti Properties.C01.
+     Model.CutBytes Model.CutStr Spec.Fields Proofs.C06 Proofs.ScanSplit Proofs.Plain Proofs.C01More Proofs.PlainMulti Proofs.Greedy Properties.C01.
 
 
 Check C01_fields_locations_are_fields :
@@ -105,6 +105,33 @@ Check C01_record_as_a_function_of_its_fields :
                      end
             end).
 Print Assumptions C01_record_as_a_function_of_its_fields.
+
+Check C01_record_as_a_function_of_its_fields_greedy :
+  forall (o : opt) (line0 : bytes),
+    greedy_opts o -> Forall item_nz (items (o_bounds o)) ->
+    cut_str o line0
+    = Some (let d := o_delim o in
+            let line1 := match o_trim o with Some k => trim_lit k d line0 | None => line0 end in
+            match line1 with
+            | [] => ROk (if o_only_delimited o then [] else [o_eol o])
+            | _ =>
+                let ps := if o_compress o then squeeze (split d line1) else split d line1 in
+                let ks := kept_v ps in
+                if o_only_delimited o && Nat.eqb (length ks) 1 then ROk []
+                else match effective_bounds o (length ks) with
+                     | None => RErr
+                     | Some bs =>
+                         match spec_items_g ps ks (o_fallback o) (o_join o) (rep_of' o) bs with
+                         | Some x => ROk (x ++ [o_eol o])
+                         | None => RErr
+                         end
+                     end
+            end).
+Print Assumptions C01_record_as_a_function_of_its_fields_greedy.
+
+Check C01_greedy_counted_fields_are_the_squeezed_ones :
+  forall ps : list bytes, map (fun k => nth k ps []) (kept_v ps) = squeeze ps.
+Print Assumptions C01_greedy_counted_fields_are_the_squeezed_ones.
 
 Check C01_replacement_rewrites_exactly_the_separators_any_delimiter :
   forall (d rep : bytes) (fs : list bytes), d <> [] -> fs <> [] -> leftmost_fields d fs ->
